@@ -211,6 +211,7 @@ pub fn run_in_world<T>(world: World, f: impl FnOnce() -> T) -> (Option<T>, Optio
     let rc = Rc::new(RefCell::new(world));
     gamedig::verif_hook::install(Box::new(SimBackend(rc.clone())));
     verif_net::install(Box::new(SimBackend(rc.clone())));
+    crate::sleephook::set_world(Some(rc.clone()));
     LAST_PANIC.with(|p| *p.borrow_mut() = None);
     alloc::begin();
     IN_RUN.with(|c| c.set(true));
@@ -219,6 +220,7 @@ pub fn run_in_world<T>(world: World, f: impl FnOnce() -> T) -> (Option<T>, Optio
     let stats = alloc::end();
     drop(gamedig::verif_hook::uninstall());
     drop(verif_net::uninstall());
+    crate::sleephook::set_world(None);
     let world = match Rc::try_unwrap(rc) {
         Ok(cell) => cell.into_inner(),
         Err(_) => panic!("GDSIM: world still shared after the run"),
